@@ -9,6 +9,7 @@
                  return exactly the last-writer-wins merge and mutate neither self nor the arguments.
 * LRUCache       state machine over get / [] / in / del / []= (NextLRU): size bound, value-under-its-key, reads return the
                  last stored value, evictions remove exactly the least recently used entries; every edge replayed.
+* sequences      NextOSet / NextSet: one OrderedSet / IdentitySet object through walks of operations, every edge replayed.
 The pure-Python sources of the working tree are loaded (engine/purepy) and, in a subprocess with VERIF_COMPILED=1, the
 prebuilt binaries (replay_compiled; second implementation for C55).
 """
@@ -144,7 +145,7 @@ def main(chk):
         acts, evict = {}, 0
         for e in g.edges:
             acts[e[1]["a"]] = acts.get(e[1]["a"], 0) + 1
-            evict += len(g.states[e[2]]["d"]) < len(g.states[e[0]]["d"]) and e[1]["a"] == "setitem"
+            evict += e[1]["a"] == "setitem" and len(g.states[e[2]]["d"]) < len({x["k"] for x in g.states[e[0]]["d"]} | {e[1]["k"]})
         for a in LRU_FOOT:
             if not acts.get(a):
                 chk.machinery("vacuous: LRU action %s never taken" % a)
@@ -168,8 +169,34 @@ def main(chk):
         w = walks[len(walks) // 2]
         samples.append({"lru_walk": ["%s(%s)" % (g.edges[ei][1]["a"], g.edges[ei][1]["k"]) for ei in w]})
         nontrivial += evict
+    # ---- OrderedSet / IdentitySet operation SEQUENCES on one object per walk
+    sk = pc.consts(K=2, MaxLen=3, MaxDepth=5 if q else 6)
+    sg = pc.dump_graphs_parallel(chk, [("InitOSetSeqE", "NextOSet", sk, ["OSetNoDups"], ["OSetEdgeOK"]),
+                                       ("InitSetE", "NextSet", dict(sk, K=3), [], ["SetEdgeOK"])], timeout=1500)
+    seqs = []
+    for (name, mkdrv), g in zip((("OrderedSet", lambda: pu.OSetSeqDriver(universe)), ("IdentitySet", lambda: pu.IdSetSeqDriver(universe))), sg):
+        r = g.tlc
+        if r.violated:
+            chk.violation({"spec": "PyCollections", "action": "TLC", "invariant": r.violated, "cfg": "sequences " + name},
+                          "TLC: %s violated in PyCollections.tla (%s sequences)" % (r.violated, name))
+        states += r.distinct
+        trans += r.generated
+        walks, plan = graph.plan_tours(g, 40, rng)
+        extra = graph.random_walks(g, 200 if q else 2000, 12, rng)
+        steps, sm = pc.replay_walks(g, walks + extra, mkdrv())
+        walks_total += len(walks) + len(extra)
+        steps_total += steps
+        for m in sm:
+            op = m["act"]["op"]
+            sig = {"spec": "PyCollections", "kind": "conformance-seq", "coll": name, "impl": "pure", "cls": m["cls"]}
+            sig.update(pc.op_sig(op))
+            vk = "seq %s %s %s" % (name, op["n"], m["cls"])
+            vclasses[vk] = vclasses.get(vk, 0) + 1
+            chk.violation(sig, "%s, step %d of a sequence: %s" % (name, m["step"], m["mismatch"]), m)
+        seqs.append({"collection": name, "distinct": r.distinct, "generated": r.generated, "edges": len(g.edges), "plan": plan, "steps": steps})
     return chk.finish(
         dict(states=states, transitions=trans, traces_validated_against_impl=evaluations + walks_total, distinct_nontrivial=nontrivial,
+             sequences=seqs,
              evaluations=evaluations + steps_total, samples=samples[:8], tlc_runs=runs, lru=lru, implementations=impls,
              calibrated_against_builtin=ncal, operation_coverage=cov, lru_walks=walks_total, lru_steps=steps_total,
              mismatch_classes=vclasses, exhaustive=True,
